@@ -316,6 +316,10 @@ func gevFamily(c *inst, raw json.RawMessage, full bool, sum *core.Summary) {
 		}
 	}
 
+	if want("Dgehrd") {
+		gevPipeline(k, c, kap, count)
+	}
+
 	// ---- mat.Eigen ---------------------------------------------------------------------------
 	if want("Eigen") && n >= 1 && forcedNB == 0 {
 		for _, kind := range []mat.EigenKind{mat.EigenNone, mat.EigenRight, mat.EigenLeft, mat.EigenBoth} {
